@@ -157,7 +157,10 @@ def run(R):
             # the decrement is guarded by a non-null old impl_
             R.ob("C18.refcount", fn, fn.loc, ok, "old implementation released at most once (paths: %s)" % sorted(decs), sitekey=q.split("::")[-1], why=WHY)
     for fn in F.functions(qname="dispenso::detail::FutureBase::(ctor)"):
-        if len(fn.params) == 1 and "const" in fn.params[0].get("type", "") and "FutureBase" in fn.params[0].get("type", ""):
+        pt = fn.params[0].get("type", "").strip() if len(fn.params) == 1 else ""
+        # the copy constructor: `const FutureBase<R> &` (not `FutureBase<const int &> &&`, the move
+        # constructor of a future of a const reference)
+        if pt.startswith("const ") and "FutureBase" in pt and pt.endswith("&") and not pt.endswith("&&"):
             n += 1
             incs = count_calls_on_paths(fn, lambda p, e: e.get("k") == "call" and e.get("name") == "incRefCount")
             R.ob("C18.refcount", fn, fn.loc, incs <= {0, 1} and 1 in incs, "copying a handle adds one reference (paths: %s)" % sorted(incs), sitekey="copy-ctor", why=WHY)
